@@ -32,7 +32,8 @@ import common
 from common import REPO, cxx_build, drv, gen_write, log, sh
 
 NCPU = common.NCPU
-TIMEOUT = 20          # seconds per run (a normal run takes 0.03 s, a detected deadlock or livelock < 0.5 s)
+TIMEOUT = 60          # seconds per run (a normal run takes 0.03 s, a detected deadlock or livelock < 0.5 s; a guided run of
+                      # 20 000 points alternates between two real threads and can take many seconds on an overloaded machine)
 ENOUGH = 12           # stop launching runs once this many runs violated a monitor (a broken tree fails almost every run)
 
 
@@ -582,13 +583,14 @@ def run_specs(exe, specs):
     def one(spec):
         r = run_one(exe, spec)
         retries = 0
-        while r["rc"] not in (0, 1, 3, -9) and retries < 3:
-            # runs are deterministic given the schedule, so a genuine crash of the runtime reproduces; a crash that does
-            # not is the E-SHIM runtime's own hand-over race (verif_sched.cpp reschedule() reads r->ths[me] after
-            # give_go(); seen only on the deadlock path under heavy machine load) — reported, not counted
+        while r["rc"] not in (0, 1, 3) and retries < (1 if r["rc"] == -9 else 3):
+            # runs are deterministic given the schedule, so a genuine crash or hang of the runtime reproduces; one that
+            # does not is the E-SHIM runtime's own hand-over race (verif_sched.cpp reschedule() reads r->ths[me] after
+            # give_go(); seen only under heavy machine load, as a crash on the deadlock path or as a stalled hand-over)
+            # — reported, not counted
             retries += 1
             r2 = run_one(exe, spec)
-            r2["first_crash"] = r["err"]
+            r2["first_crash"] = r["err"] or "rc=%d" % r["rc"]
             r = r2
         r["retries"] = retries
         try:
@@ -731,7 +733,7 @@ def sleep_windows(probe_results):
             nres = g[gj + 1]["picks"]
             for c in (cPark + 2, max(0, cW - MARGIN)):
                 for d in range(1, nres + 1):
-                    sp = gspec(fam, what, "R:pub;L:cnt=%d|blk;F:cnt=%d|res;L:blk|cnt=6000;F:res" % (c, d), r["spec"]["seed"])
+                    sp = gspec(fam, what, "R:pub;L:cnt=%d|blk;F:cnt=%d|res;L:blk|cnt=3000;F:res" % (c, d), r["spec"]["seed"])
                     sp["split"] = d
                     specs.append(sp)
     return specs, problems, info
@@ -995,7 +997,7 @@ def run(ck):
             g = r["guides"]
             if len(g) > 3 and g[1]["picks"] >= 0 and g[3]["picks"] > 0:
                 c = max(0, g[1]["picks"] - MARGIN)
-                ps = [gspec(("outer", 1, "f", 0, 4), "resume", "R:pub;L:cnt=%d|blk;F:cnt=%d|res;L:blk|cnt=6000;F:res" % (c, d), r["spec"]["seed"]) for d in range(1, g[3]["picks"] + 1)]
+                ps = [gspec(("outer", 1, "f", 0, 4), "resume", "R:pub;L:cnt=%d|blk;F:cnt=%d|res;L:blk|cnt=3000;F:res" % (c, d), r["spec"]["seed"]) for d in range(1, g[3]["picks"] + 1)]
                 for x in run_specs(exe, ps):
                     if mon_problem(x) and x["susp"].get(0, {}).get("cont_tid", -1) >= 0:
                         hang.append("build/C20/sr " + " ".join("'%s'" % a if ";" in a else a for a in spec_args(x["spec"])))
